@@ -327,7 +327,7 @@ theorem monoE (env : Env) (henv : envGround env = true) (ctx : Ctx) (e e' : Expr
             simp only [hb, pure, Except.pure, Except.ok.injEq, Prod.mk.injEq] at hs
             obtain ⟨e1, e2⟩ := hs; subst e1; subst e2
             obtain ⟨t, ht1, ht2, ht3⟩ := binop_mono op fl fr tl tr t' l2 r2 l3 r3 hb
-            exact ⟨rfl, t, by simp [synth, bind, Except.bind, l1, r1, ht1, pure, Except.pure], ht2, ht3⟩
+            exact ⟨by cases op <;> rfl, t, by cases op <;> simp [synth, bind, Except.bind, l1, r1, ht1, pure, Except.pure, binDiv], ht2, ht3⟩
     | _ => simp [fillsE] at hf
   | ite c t el =>
     cases e' with
